@@ -573,6 +573,28 @@ func (x *c08Run) snapshotObject(im *c08Impl, lo, hi []byte, rev bool, stopAfter 
 	if !x.cmpList("BatchedSnapshotIter", im, got, want, false, -1) {
 		return false
 	}
+	// ... and item by item with the plain snapshot iterator over the same range
+	var plain []c08Got
+	if !x.must("SnapshotIter", im, func() {
+		if rev {
+			plain, err = x.drain(im.db.SnapshotIterReverse(hi, lo), x.maxItems())
+		} else {
+			plain, err = x.drain(im.db.SnapshotIter(lo, hi), x.maxItems())
+		}
+	}) {
+		return false
+	}
+	if err != nil {
+		x.iterFailed("SnapshotIter", im, err)
+		return false
+	}
+	for i := 0; i < len(got) || i < len(plain); i++ {
+		if i >= len(got) || i >= len(plain) || !bytes.Equal(got[i].key, plain[i].key) || !bytes.Equal(got[i].val, plain[i].val) {
+			x.fail("BatchedSnapshotIter:differs-from-SnapshotIter:"+im.name, "BatchedSnapshotIter(reverse=%v) on %s differs from SnapshotIter at item %d (%d vs %d items)", rev, im.name, i, len(got), len(plain))
+			return false
+		}
+	}
+	x.noteBatches(want, rev)
 	// point reads through the snapshot object
 	for i := 0; i < 3 && len(x.pool) > 0; i++ {
 		k := x.pool[x.rng.Intn(len(x.pool))]
@@ -1107,6 +1129,43 @@ func (x *c08Run) execIterAfterWrite(op c08Op) {
 	}
 }
 
+// noteBatches records (coverage only, decides nothing) how demanding a batched scan was: the number of
+// batches it needs (32, 64, 128, ... items) and whether a forward scan re-uses its resume-key buffer for a
+// key that is shorter than an earlier resume key and is followed by its own extensions - the situation in
+// which "last key + 0x00" has to be rebuilt correctly for no key to be skipped.
+func (x *c08Run) noteBatches(want []c08Item, rev bool) {
+	if len(want) > 32 {
+		x.count("batched_scans_2plus_batches", 1)
+	}
+	if len(want) > 96 {
+		x.count("batched_scans_3plus_batches", 1)
+	}
+	if rev {
+		return
+	}
+	var buf []byte
+	for end, size := 31, 32; end < len(want)-1; {
+		key, next := want[end].key, want[end+1].key
+		n := len(key)
+		if cap(buf) >= n+1 {
+			buf = buf[:cap(buf)]
+			if buf[n] != 0 && len(next) > n && next[:n] == key && next[n] < buf[n] {
+				x.count("batched_scans_short_resume_key_after_longer", 1)
+				return
+			}
+			copy(buf, key)
+			buf[n] = 0
+		} else {
+			buf = make([]byte, n+1)
+			copy(buf, key)
+		}
+		if size < 4096 {
+			size *= 2
+		}
+		end += size
+	}
+}
+
 // execBatchedInterleaved: BatchedSnapshotIter "tolerates interleaving reads and writes".
 func (x *c08Run) execBatchedInterleaved(op c08Op) {
 	rev := op.K == "bsiwrev"
@@ -1170,6 +1229,10 @@ func (x *c08Run) execBatchedInterleaved(op c08Op) {
 	}
 	if len(want) > 32 {
 		x.count("batched_iter_refills", 1)
+	}
+	x.noteBatches(want, rev)
+	if len(want) > 96 {
+		x.count("batched_interleaved_3plus_batches", 1)
 	}
 }
 
